@@ -113,6 +113,13 @@ def r2(ctx):
                     raw_byte = s["place"]["local"]
     if raw_byte is None:
         raise AnchorMissing("raw input byte local (path_component[i])")
+    # the bytes walked are the element's own bytes, all of them: `uri_el.as_bytes()` (a trim / re-casing / cut of the
+    # element before the walk changes which strings are equivalent - form bodies do carry raw whitespace)
+    ralt = transforms(b, {"copy": {"local": raw_byte, "proj": []}}, allow=None)
+    if ralt:
+        yield VIOL("C09-R2", "normalize_uri_element/input-as-is", "the element is altered before its bytes are normalised (through %s)" % [c.split("::")[-1] for c in ralt], where=loc(b.j["span"]))
+    else:
+        yield PASS("C09-R2", "normalize_uri_element/input-as-is", "bytes walked = uri_el.as_bytes()", [])
     kinds = {"raw-literal": 0, "decoded-literal": 0, "percent": 0, "hex": 0, "plus-space": 0}
     bad = False
     for blk, t, ai in ems:
@@ -420,6 +427,25 @@ def r6(ctx):
         from_path = sl.has_call(r"canonical::normalize_uri_path_component$") and b.in_cycle(bi)
         if not from_path:
             bad.append((bi, t))
+    # what is written back over a component (`components[i] = component`) or pushed (stack form) is the normalised
+    # component as it is: nothing replaces, trims or re-cases it afterwards (un-escaping `%2F` in S3 mode makes
+    # `/bucket/a%2Fb` and `/bucket/a/b` one canonical path)
+    stored = []
+    for bi, i, st in b.stmts():
+        if st["k"] == "assign" and st["place"]["proj"] and st["place"]["proj"][0] == "deref" and st["rv"]["k"] == "use":
+            sd = b.single_def(st["place"]["local"])
+            if sd and sd["kind"] == "call" and re.search(r"ops::IndexMut::index_mut$", sd["term"]["callee"]) and re.search(r"Vec<std::string::String>", sd["term"].get("resolved_full", "") + " ".join(sd["term"].get("arg_tys", []))):
+                stored.append((bi, st["rv"]["op"]))
+    for bi, t in vecs:
+        if re.search(r"::(push|insert)$", t["callee"]):
+            stored.append((bi, t["args"][-1]))
+    alt = []
+    for bi, o in stored:
+        a_ = transforms(b, o, allow=None, stop=r"canonical::normalize_uri_path_component$")
+        if a_:
+            alt.append((bi, a_))
+    if alt:
+        yield VIOL("C09-R6", "canonicalize_uri_path/component-altered", "a component is altered after it was normalised and before it is stored (through %s)" % sorted({c.split("::")[-1] for _, a_ in alt for c in a_}), where=b.span_of_block(alt[0][0]))
     if bad:
         yield VIOL("C09-R6", "canonicalize_uri_path/component-added", "`%s` adds an element to the component list that is not a normalised component taken in the resolution loop (%d site(s)): the canonical path gains a segment the request path does not have" % (bad[0][1]["callee"].split("::")[-1], len(bad)), where=b.span_of_block(bad[0][0]))
     else:
